@@ -133,7 +133,10 @@ def key_body(k, keys, rng_variant=0, decoy=None):
             '{"issued": "%s", "key": "%s", "guid": 7, "authorizationScheme": "Azure-HMAC-SHA256"}' % (pad, keys[kid]),                       # wrong type
             '{"issued": "%s", "key": "%s", "authorizationScheme": "Azure-HMAC-SHA256"}' % (pad, keys[kid]),                                  # missing field
         ]
-        return {"code": 200, "body": variants[rng_variant % len(variants)], "content_type": "application/json; charset=utf-8"}
+        ix = rng_variant % (len(variants) + 1)
+        if ix == len(variants):     # the xml branch of read_response_body echoes the body just the same
+            return {"code": 200, "body": variants[0], "content_type": "text/xml; charset=utf-8"}
+        return {"code": 200, "body": variants[ix], "content_type": "application/json; charset=utf-8"}
     raise ValueError(k)
 
 
@@ -253,9 +256,15 @@ def encodings(value, is_hex):
         forms["bytes"] = dec
         forms["b64bytes"] = base64.b64encode(dec)
         forms["b64urlbytes"] = base64.urlsafe_b64encode(dec)
-    # a leak of a long enough piece is a leak: first and second half separately
-    forms["half1"] = raw[:32]
-    forms["half2"] = raw[32:]
+    # a leak of a long enough piece is a leak ("key fingerprint: first 12 digits"): every 12-character window
+    # of the text forms (a random 12-character string does not occur by chance), every 8-byte window of the bytes
+    for base in ("raw", "lower", "upper"):
+        t = forms[base]
+        for i in range(0, len(t) - 12 + 1):
+            forms["%s[%d:%d]" % (base, i, i + 12)] = t[i:i + 12]
+    if is_hex:
+        for i in range(0, len(dec) - 8 + 1):
+            forms["bytes[%d:%d]" % (i, i + 8)] = dec[i:i + 8]
     return forms
 
 
@@ -454,6 +463,8 @@ def coq_history(hist):
 
 
 def coq_variant(v):
+    if tuple(v) == (True, True):
+        return "current"
     return "{| fix_hex := %s; fix_body := %s |}" % (cbool(v[0]), cbool(v[1]))
 
 
@@ -635,7 +646,7 @@ def run(ctx):
     canaries = [make_canaries(rng, h) for h in hists]
     predirs = [False] * (2 + len(FIXED_CASES)) + [rng.random() < 0.3 for _ in range(n_random)]
     predirs[3] = True
-    variants = [rng.randrange(3) for _ in hists]
+    variants = [rng.randrange(4) for _ in hists]
     straced = set(range(len(FIXED_CASES) + 2)) | set(rng.sample(range(len(hists)), min(n_strace, len(hists))))
 
     # ---------------- implementation ----------------
@@ -656,15 +667,10 @@ def run(ctx):
         impl = list(ex.map(one, range(len(hists))))
     ctx.log("implementation: %d histories run" % len(hists))
 
-    # ---------------- which repairs does the tree carry?  decided by the two witnesses ----------------
-    cand = [(False, False), (True, False), (False, True), (True, True)]
-    wit = {v: model_eval(ctx, v, [WITNESS_HEX, WITNESS_BODY], name="wit%d%d" % v) for v in cand}
-    variant = (False, False)
-    for v in cand:
-        if wit[v][0][0] == impl[0]["obs"] and wit[v][1][0] == impl[1]["obs"]:
-            variant = v
-            break
-    ctx.log("variant (fix_hex, fix_body) decided by the witnesses:", variant)
+    # ---------------- the model of the code: Taint.current = both F6 repairs (commits 5de21e5, 04b956c) -------------
+    # (the first two histories are the F6 witnesses: regression cases for the two repairs -- a revert makes the
+    #  canary reappear, which is then a property failure with that history as the failing input)
+    variant = (True, True)
 
     # ---------------- model ----------------
     model = model_eval(ctx, variant, hists, predirs=predirs)
@@ -724,7 +730,7 @@ def run(ctx):
                 "document of an enabled channel, distinct by content; every key id has a fresh random 64-character canary; %d histories under strace"
                 % (len(FIXED_CASES), n_random, len(straced)),
         "exhaustive": False,
-        "variant_decided_by_witnesses": {"fix_hex": variant[0], "fix_body": variant[1]},
+        "model_variant": {"fix_hex": variant[0], "fix_body": variant[1], "name": "Taint.current"},
         "files_scanned": sum(im["nfiles"] for im in impl),
         "leak_observations": leaks_seen,
         "samples": [
